@@ -11,7 +11,7 @@ keep = '--keep' in sys.argv; stored = '--stored' in sys.argv
 want = [a for a in sys.argv[1:] if not a.startswith('--')]
 ids = [c['property_id'] for c in json.load(open('/verif/MANIFEST.json'))['checks']]
 def sh(cmd, cwd=None, timeout=1200):
-    r = subprocess.run(cmd, shell=True, cwd=cwd, env=env, capture_output=True, text=True, timeout=timeout)
+    r = subprocess.run(cmd, shell=True, cwd=cwd, env=env, capture_output=True, text=True, errors="replace", timeout=timeout)
     return r.returncode, r.stdout + r.stderr
 srcs = {}
 if stored:
